@@ -1,4 +1,66 @@
 import Driver.Common
+import Driver.Hex
+import AnyioModel.Stream.Buffered
 
-/-- placeholder driver: replies `unimplemented` to every request -/
-def main : IO Unit := Driver.serve () (fun s _ => (s, "unimplemented"))
+/-
+md_buffered: one request line = one whole case
+
+  case <b|o> <chunks> <env> <call> <call> ...
+
+  <chunks>  `-` (none) or comma separated chunks, each a hex string (`.` = empty chunk)
+  <env>     `-` or comma separated naturals: bytes returned by the successive wrapped
+            `receive` calls of a byte stream (clamped to 1..max_bytes by the model)
+  <call>    r:<n> | x:<n> | u:<hex delimiter>:<max_bytes> | f:<hex> | c
+
+reply: for every call `<ok:HEX|err:NAME>/<buffer HEX>` separated by blanks, then
+`rest=<HEX>` (what the wrapped stream has not delivered).  HEX of nothing is `.`.
+-/
+namespace Driver.Buffered
+open AnyioModel.Stream.Buffered
+open Driver.Hex
+
+def parseCall (w : String) : Option Call :=
+  match w.splitOn ":" with
+  | ["r", n] => do some (.receive (← n.toNat?))
+  | ["x", n] => do some (.exactly (← n.toNat?))
+  | ["u", d, m] => do some (.until (← parseHex d) (← m.toNat?))
+  | ["f", bs] => do some (.feed (← parseHex bs))
+  | ["c"] => some .close
+  | _ => none
+
+def errStr : Err → String
+  | .value => "value"
+  | .closed => "closed"
+  | .eos => "eos"
+  | .incomplete => "incomplete"
+  | .notFound => "notfound"
+  | .diverge => "diverge"
+
+def resStr : Res → String
+  | .ok bs => "ok:" ++ toHex bs
+  | .error e => "err:" ++ errStr e
+
+def runCalls : State → List Call → List String → List String × State
+  | s, [], acc => (acc.reverse, s)
+  | s, c :: cs, acc =>
+    let (r, s') := call s c
+    runCalls s' cs ((resStr r ++ "/" ++ toHex s'.buf) :: acc)
+
+def handle (_ : Unit) : List String → Unit × String
+  | "case" :: k :: chunks :: env :: calls =>
+    let parsed : Option (Kind × List (List UInt8) × List Nat × List Call) := do
+      let kind ← (if k = "b" then some Kind.byte else if k = "o" then some Kind.obj else none)
+      let ch ← parseList parseHex chunks
+      let ev ← parseList String.toNat? env
+      let cl ← calls.mapM parseCall
+      some (kind, ch, ev, cl)
+    match parsed with
+    | none => ((), "bad-op")
+    | some (kind, ch, ev, cl) =>
+      let (outs, s) := runCalls (init kind ch ev) cl []
+      ((), " ".intercalate (outs ++ ["rest=" ++ toHex s.rest]))
+  | _ => ((), "bad-op")
+
+end Driver.Buffered
+
+def main : IO Unit := Driver.serve () Driver.Buffered.handle
